@@ -1,7 +1,6 @@
 (* C10/LemmasRun.v -- every operation of a history keeps the invariants of
    LemmasInv.v: inv_step, inv_run.  Guards (op_ok): user syntax items use the
-   modelled colour language, objects have no aliasing enum values, no palette
-   is requested with synced=True. *)
+   modelled colour language, no palette is requested with synced=True. *)
 From Coq Require Import ZArith List Bool Lia.
 From AK Require Import Common.Sx Common.Err C10.Sgr C10.SgrLemmas C10.Base gen.C10_Consts C10.Model C10.Lemmas C10.LemmasInv.
 Import ListNotations.
@@ -14,11 +13,8 @@ Definition op_ok (o : op) : Prop :=
   match o with
   | ONewConf _ _ init => smap_ok init
   | ORegister _ items => smap_ok items
-  | ORender obj _ _ pa _ _ => obj_ok obj /\ pa <> PSynced
-  | OHelp _ obj => obj_ok obj
+  | ORender _ _ _ pa _ _ => pa <> PSynced
   | OMake _ _ _ _ pa _ => pa <> PSynced
-  | ONext _ obj _ => obj_ok obj
-  | OWholeH _ obj _ _ => obj_ok obj
   | _ => True
   end.
 
@@ -52,7 +48,7 @@ Qed.
 
 Lemma inv_step w o w' ts : inv fts w -> op_ok o -> step true fts w o = Ok (w', ts) -> inv fts w'.
 Proof.
-  intros Hi Hok. destruct o as [c nc init|c|c items|copt|obj copt nc pa mode ids|h ids|h obj|h K copt nc pa ids|h obj ids|h obj mode ids]; cbn [step].
+  intros Hi Hok. destruct o as [c nc init|c|c items|copt|obj copt nc pa mode ids|h K copt nc pa ids|h obj ids|h obj mode ids]; cbn [step].
   - intros [= <- _]. eapply inv_move; [exact Hi|].
     destruct (new_conf_ok nc init true Hok) as (A & B & _). apply MNewConf; assumption.
   - intros [= <- _]. apply inv_gc. eapply inv_move; [exact Hi|]. apply MConf. apply conf_step_fields. apply incl_refl.
@@ -67,7 +63,7 @@ Proof.
       remember (put_conf w (w_nextc w) (dflt_conf false)) as wa eqn:Ea. clear Ea.
       assert (inv fts (set_global (set_nextc wa (w_nextc w - 1)) (Some (w_nextc w)))) as H1 by (apply (inv_roots fts wa); auto).
       eapply inv_moves; [exact H1|]. apply moves_resync. apply H1.
-  - destruct Hok as [Hobj Hpa].
+  - pose proof (obj_ok_all obj) as Hobj. pose proof Hok as Hpa.
     pose proof (inv_set_oracle w ids Hi) as H0.
     destruct (mk_palette true (set_oracle w ids) (o_cls obj) pa copt nc) as [[w1 cp]|] eqn:E1; [|discriminate].
     cbn [bind]. pose proof (inv_mk_palette _ _ _ _ _ _ _ H0 Hpa E1) as H1.
@@ -77,17 +73,6 @@ Proof.
     eapply inv_moves; [exact H1'|].
     apply (good_consume true fts _ _ _ _ _ _ (proj1 H1') (or_introl eq_refl) Hobj E2).
   - pose proof (inv_set_oracle w ids Hi) as H0.
-    destruct (class_call true (set_oracle w ids) None false hcmd_cls false) as [[w1 p]|] eqn:E1; [|discriminate].
-    cbn [bind fst snd]. intros [= <- _]. apply inv_gc.
-    assert (inv fts w1) as H1.
-    { eapply inv_moves; [exact H0|]. apply (moves_class_call true fts _ _ _ _ _ _ (proj1 H0) E1). }
-    apply (inv_roots fts w1); auto.
-  - destruct (zfind h (w_hcmds w)) as [cp|] eqn:Eh; [|discriminate].
-    destruct (gen_lines true fts w cp obj) as [[w1 ls]|] eqn:E1; [|discriminate]. cbn [bind fst snd].
-    intros [= <- _]. apply inv_gc. eapply inv_moves; [exact Hi|].
-    apply (good_gen_lines true fts _ _ _ _ _ (proj1 Hi)) with (3 := E1); [|exact Hok].
-    unfold held. apply in_or_app. right. apply zfind_In in Eh. apply in_map_iff. exists (h, cp). auto.
-  - pose proof (inv_set_oracle w ids Hi) as H0.
     destruct (mk_palette true (set_oracle w ids) K pa copt nc) as [[w1 cp]|] eqn:E1; [|discriminate].
     cbn [bind fst snd]. intros [= <- _]. apply inv_gc.
     pose proof (inv_mk_palette _ _ _ _ _ _ _ H0 Hok E1) as H1.
@@ -96,13 +81,13 @@ Proof.
     pose proof (inv_set_oracle w ids Hi) as H0.
     destruct (gen_lines true fts (set_oracle w ids) cp obj) as [[w1 ls]|] eqn:E1; [|discriminate]. cbn [bind fst snd].
     intros [= <- _]. apply inv_gc. eapply inv_moves; [exact H0|].
-    apply (good_gen_lines true fts _ _ _ _ _ (proj1 H0)) with (3 := E1); [|exact Hok].
+    apply (good_gen_lines true fts _ _ _ _ _ (proj1 H0)) with (3 := E1); [|apply obj_ok_all].
     unfold held. apply in_or_app. right. apply zfind_In in Eh. apply in_map_iff. exists (h, cp). auto.
   - destruct (zfind h (w_hcmds w)) as [cp|] eqn:Eh; [|discriminate].
     pose proof (inv_set_oracle w ids Hi) as H0.
     destruct (consume true fts (set_oracle w ids) cp obj mode) as [[w1 ts1]|] eqn:E1; [|discriminate]. cbn [bind fst snd].
     intros [= <- _]. apply inv_gc. eapply inv_moves; [exact H0|].
-    apply (good_consume true fts _ _ _ _ _ _ (proj1 H0)) with (3 := E1); [|exact Hok].
+    apply (good_consume true fts _ _ _ _ _ _ (proj1 H0)) with (3 := E1); [|apply obj_ok_all].
     unfold held. apply in_or_app. right. apply zfind_In in Eh. apply in_map_iff. exists (h, cp). auto.
 Qed.
 
